@@ -197,7 +197,9 @@ inline constexpr void convert_type_fundamental_or_array(T_To& to,
                     is_floating_point_v<T_From_El>) {
       // Sanity check - this should definitely be true
       static_assert(sizeof(T_From_C) == sizeof(T_To_C));
-      std::memcpy(&to, &from, sizeof(T_To_C));
+      // (memmove: both arrays may live in sandbox memory, at addresses the
+      // sandbox chose, and overlap)
+      std::memmove(&to, &from, sizeof(T_To_C));
     } else {
       for (size_t i = 0; i < std::extent_v<T_To_C>; i++) {
         convert_type_fundamental_or_array(to[i], from[i]);
@@ -290,7 +292,8 @@ inline constexpr void convert_type_non_class(
       // Sanity check - this should definitely be true
       static_assert(sizeof(T_To_El) == sizeof(T_From_El) &&
                     sizeof(T_From_C) == sizeof(T_To_C));
-      memcpy(&to, &from, sizeof(T_To_C));
+      // (memmove: see above)
+      std::memmove(&to, &from, sizeof(T_To_C));
     } else {
       for (size_t i = 0; i < std::extent_v<T_To_C>; i++) {
         convert_type_non_class<T_Sbx, Direction, Context>(
